@@ -161,6 +161,7 @@ ADAPTORS = [
     (r'^Parameters_write', _scenario('data_start_block')),
     (r'^Header_write$', _scenario('header_write_label')),
     (r'^c3d_frame_guards$', _keyed('label-order', 'frame_point_order')),
+    (r'^B_readParam_', _scenario('param_matrix_eof', ['-O1'])),
     (r'^B_Parameter_read$', _scenario('param_char_scalar', ['-fsanitize=address'])),
     (r'^c3d_updateHeader$', _scenario('header_frames_after_declare')),
     (r'^c3d_parameter$', _scenario('param_untyped_creates_group')),
